@@ -13,9 +13,12 @@ VERIF = os.path.dirname(os.path.dirname(os.path.abspath(__file__)))
 REPO = os.environ.get("VERIF_REPO", "/repo")
 
 _scratch_dirs = []
+_owner_pid = os.getpid()
 
 
 def _cleanup():
+    if os.getpid() != _owner_pid:      # forked workers must not remove the parent's scratch directories
+        return
     for d in _scratch_dirs:
         shutil.rmtree(d, ignore_errors=True)
 
